@@ -1209,6 +1209,14 @@ def read_pattern(state: State, data: ReadBuffer) -> Pattern:
         sequence_pattern = SequencePattern(patterns)
         read_loc(data, sequence_pattern)
         expect_end_tag(data)
+        if sum(isinstance(p, StarredPattern) for p in patterns) >= 2:
+            state.add_error(
+                "Multiple starred names in sequence pattern",
+                sequence_pattern.line,
+                sequence_pattern.column,
+                blocker=True,
+                code="syntax",
+            )
         return sequence_pattern
     elif tag == nodes.STARRED_PATTERN:
         has_name = read_bool(data)
